@@ -541,7 +541,7 @@ def main():
                 pc["detail"] = r["detail"]
                 per_case.append(pc)
                 continue
-            n_assert = n_ok = n_unreached = 0
+            n_assert = n_ok = n_unreached = n_error = 0
             reach_total = reach_hit = 0
             case_fail = []
             for p in r["props"]:
@@ -549,8 +549,14 @@ def main():
                     reach_total += 1
                     if p["status"] == "FAILURE":
                         reach_hit += 1
+                    elif p["status"] == "ERROR":
+                        n_error += 1
                     else:
                         machinery.append("%s: vacuous - witness %s not reachable" % (cname, p["description"]))
+                    continue
+                if p["status"] == "ERROR":
+                    # the solver gave up on this property (out of memory ...)
+                    n_error += 1
                     continue
                 if p["status"] not in ("SUCCESS", "FAILURE"):
                     # never reached by symbolic execution (status UNKNOWN):
@@ -567,6 +573,8 @@ def main():
                     machinery.append("%s: unwinding bound too small: %s %s" % (cname, p["property"], p.get("where", "")))
                     continue
                 case_fail.append(p)
+            if n_error:
+                undecided.append("%s: solver error (out of memory) on %d properties" % (cname, n_error))
             if reach_total and reach_hit == reach_total:
                 nontrivial += 1
             if reach_total == 0:
